@@ -103,13 +103,16 @@ func cmdCheck(args []string) {
 	// names something the code no longer has, a unit left the supported subset, a vacuity guard failed). Before the
 	// run is given up as broken, the replay corpora of the property's adapters are run on the real code: a failing
 	// input found there is a violation shown on the real code; if none is found the run is reported as broken (exit 2).
-	undecidable := func(f string, a ...interface{}) {
-		reason := fmt.Sprintf(f, a...)
+	var undecidedReasons []string
+	undecidable := func(f string, a ...interface{}) { undecidedReasons = append(undecidedReasons, fmt.Sprintf(f, a...)) }
+	// resolveUndecided: returns after printing the UNDECIDED lines when the corpora find nothing
+	resolveUndecided := func(reason string) (adaptersRun []string) {
 		for _, ad := range p.adaptersFor(*prop) {
 			src, out, _, err := runReplay(p, *verif, ad, map[string]string{"tier": "\"quick\"", "seed": strconv.Itoa(seed)}, sd)
 			if err != nil {
 				continue
 			}
+			adaptersRun = append(adaptersRun, ad)
 			var hits []string
 			for _, ln := range strings.Split(out, "\n") {
 				if !strings.Contains(ln, "PROPERTY-VIOLATED") || !strings.Contains(ln, *prop) {
@@ -138,7 +141,7 @@ func cmdCheck(args []string) {
 			fmt.Printf("VIOLATION property=%s replay=%s obligation=corpus:%s\n", *prop, file, ad)
 			exitClean(1)
 		}
-		broken("%s", reason)
+		return adaptersRun
 	}
 
 	// audit of the assumed library laws (lemma lines of lib/*.contracts) against the real library, run alongside the
@@ -703,11 +706,14 @@ func cmdCheck(args []string) {
 		"wall_s":      wall,
 		"violations":  len(violations) + len(boundedViolations),
 	}
-	if !*noEvidence {
-		b, _ := json.MarshalIndent(ev, "", " ")
-		os.MkdirAll(filepath.Join(*verif, "evidence"), 0755)
-		os.WriteFile(filepath.Join(*verif, "evidence", *prop+".json"), append(b, '\n'), 0644)
+	writeEvidence := func() {
+		if !*noEvidence {
+			b, _ := json.MarshalIndent(ev, "", " ")
+			os.MkdirAll(filepath.Join(*verif, "evidence"), 0755)
+			os.WriteFile(filepath.Join(*verif, "evidence", *prop+".json"), append(b, '\n'), 0644)
+		}
 	}
+	writeEvidence()
 
 	// 6. output
 	for _, l := range knownLines {
@@ -758,6 +764,23 @@ func cmdCheck(args []string) {
 	}
 	if len(missingHard) > 0 && !*writeLedger {
 		undecidable("obligations in the baseline ledger were not generated: %v", missingHard)
+	}
+	if len(undecidedReasons) > 0 {
+		// The contracts could not be checked against this tree (they name something the code no longer has, or a
+		// guard failed): the deductive part is undecided, which is neither a proof nor a counterexample. The replay
+		// corpora of the property's adapters are run on the real code; a failing input is a violation (reported by
+		// resolveUndecided, exit 1). If they find nothing the run says so and ends with exit 0: nothing explored
+		// contradicts the property, and the evidence records that the obligations were not decided.
+		reason := strings.Join(undecidedReasons, "; ")
+		ads := resolveUndecided(reason)
+		fmt.Printf("UNDECIDED property=%s: the contracts cannot be checked against this tree (%s); replay corpora run on the real code instead (%s): no failing input\n", *prop, truncate(reason, 600), strings.Join(ads, ", "))
+		if cov, ok := ev["coverage"].(map[string]interface{}); ok {
+			cov["undecided"] = undecidedReasons
+			cov["undecided_fallback_adapters"] = ads
+		}
+		ev["level"] = "other" // undecided: contracts not checkable on this tree; bounded replay corpora only (see coverage.undecided)
+		writeEvidence()
+		exitClean(0)
 	}
 	if nOblig == 0 && len(knownLines) == 0 {
 		broken("no obligations generated")
